@@ -22,6 +22,15 @@ theorem hostOpen_keeps (H : Host) (file : Nat) (fl : Flags) (ht : fl.trunc = fal
   unfold hostOpen
   split <;> simp [ht]
 
+@[simp] theorem wbFlags_trunc (wb : Bool) (fl : Flags) : (wbFlags wb fl).trunc = fl.trunc := by
+  unfold wbFlags; split <;> rfl
+
+@[simp] theorem wbFlags_excl (wb : Bool) (fl : Flags) : (wbFlags wb fl).excl = fl.excl := by
+  unfold wbFlags; split <;> rfl
+
+@[simp] theorem wbFlags_direct (wb : Bool) (fl : Flags) : (wbFlags wb fl).direct = fl.direct := by
+  unfold wbFlags; split <;> rfl
+
 theorem openInode_host (cfg : Cfg) (st : St) (file : Nat) (fl : Flags) (ht : fl.trunc = false) :
     (openInode cfg st file fl).1.host = st.host := by
   unfold openInode
